@@ -273,6 +273,11 @@ func (p *pinSvc) Add(ctx context.Context, pth path.Path, _ ...options.PinAddOpti
 	return nil
 }
 
+// PanicFault, returned by an AddFail function, makes the write panic with that value instead of returning an error.
+type PanicFault struct{ Msg string }
+
+func (p PanicFault) Error() string { return p.Msg }
+
 type dagSvc struct{ a *api }
 
 func (d *dagSvc) Pinning() format.NodeAdder { return d }
@@ -289,6 +294,9 @@ func (d *dagSvc) Add(ctx context.Context, n format.Node) error {
 	if s.addFail != nil {
 		if err := s.addFail(nth, n.Cid()); err != nil {
 			s.mu.Unlock()
+			if pf, ok := err.(PanicFault); ok {
+				panic(pf) // the storage layer dies under the write (a datastore used while it is being closed, say)
+			}
 			return err
 		}
 	}
